@@ -19,8 +19,8 @@ RULE = (
     "Hypothesis-generated module trees (depth <= 2) of structs/enums whose type names come from the plain pool and from "
     "names that begin like a builtin (u8x, i2c, strx ...); in 60% of cases one reference — at any depth inside arrays/"
     "optionals/dynamic arrays of a chosen field of a chosen struct in a chosen file — is replaced by a reference that is "
-    "self, forward (declared later in the same file or in a module imported later), undeclared, or only declared in the "
-    "importing parent. Oracle (a) accepted => every user-type leaf of every field resolves through FcpV2.get_type to a "
+    "self, forward (declared later in the same file or in a module imported later), undeclared, only declared in the "
+    "importing parent, or the name of something that is not a type (binding alias, service, device, enumerator, field). Oracle (a) accepted => every user-type leaf of every field resolves through FcpV2.get_type to a "
     "declaration of the same name, declared before the using struct (inlined order), whose kind equals the leaf's tag and "
     "the description's kind; (b) a bad reference => Err (never Ok, never an exception) whose rendered diagnostic contains "
     "the type name and the enclosing struct's name. Non-trivial = reference under >= 1 container, or across a module, or a "
@@ -40,9 +40,10 @@ FLOORS = {
     "neg_forward": 0.02,
     "neg_undeclared": 0.02,
     "neg_parent_scope": 0.01,
+    "neg_other_decl_name": 0.02,
 }
 
-KINDS = ["self", "forward", "undeclared", "parent_scope"]
+KINDS = ["self", "forward", "undeclared", "parent_scope", "other_decl_name", "other_decl_name"]
 
 
 def _files(tree: M.Schema) -> List[Tuple[str, M.Schema, int]]:
@@ -77,7 +78,7 @@ def visible_before(tree: M.Schema, target: M.Schema, struct_name: str) -> Option
 def case(draw):
     tn = st.one_of(S.pascal_ident, S.pascal_ident, st.sampled_from(S.TRICKY_DECL_NAMES))
     cfg = S.SchemaCfg(types=S.TypeCfg(depth=3), max_fields=3, enum_max_bits=16)
-    tree = draw(MO.module_tree(2, False, cfg, tn))
+    tree = draw(MO.module_tree(2, True, cfg, tn))
     neg = None
     files = _files(tree)
     cands = [(i, s_.name) for i, (_p, sch, _d) in enumerate(files) for s_ in sch.structs]
@@ -91,6 +92,18 @@ def case(draw):
             bad = sname
         elif kind == "undeclared":
             bad = draw(S.pascal_ident.filter(lambda x: x not in allnames) | st.sampled_from(["u8q", "i2cq", "strq"]))
+        elif kind == "other_decl_name":
+            # a name that exists, but names something that is not a type: a binding alias, a service, a device, an
+            # enumerator or a field
+            inl = tree.inlined()
+            pool = [i.name for i in inl.impls if i.name is not None] + [x.name for x in inl.services] + [x.name for x in inl.devices]
+            pool += [n for e in inl.enums for n, _v in e.items] + [f.name for s_ in inl.structs for f in s_.fields]
+            pool = [n for n in pool if n not in allnames and not S._BUILTIN_EXACT.match(n) and n not in S.KEYWORDS]
+            if pool:
+                bad = draw(st.sampled_from(pool))
+            else:
+                bad = draw(S.pascal_ident.filter(lambda x: x not in allnames))
+                kind = "undeclared"
         elif kind == "forward":
             pool = [n for n in allnames if n not in vis and n != sname]
             # forward must not be something a *parent* declared earlier (that is parent_scope); both are errors anyway
